@@ -1,5 +1,6 @@
 import Amgcl.Driver.Util
 import Amgcl.Model.Schedule
+import Amgcl.Model.ScheduleSort
 /-! handlers for the C09 schedule ops (harness/h_sched.cpp) -/
 namespace Amgcl.Driver.Schedule
 open Amgcl Amgcl.Driver Amgcl.Sched
@@ -16,12 +17,18 @@ def showTables (nt : Nat) (tk : List (List (List Nat))) : String :=
 
 /-- tables + the serial result; if the level function leaves a conflict (as-is variant on a non-symmetric
 pattern) the harness prints the reverse-thread execution instead, and so does the model -/
-def schedOut (fwd : Bool) (pat : Pattern) (level : Array Nat) (nt : Nat) (upd : Vec Rat → Nat → Vec Rat)
+def schedOut (fwd : Bool) (pat : Pattern) (ln : Array Nat × Nat) (nt : Nat) (upd : Vec Rat → Nat → Vec Rat)
     (serial : Vec Rat) (x : Vec Rat) : String :=
-  let tk := tasks level nt
+  -- `ln` = (level, nlev) as step 1 accumulates them; steps 2-4 executed statement by statement (counting sort,
+  -- chunking, `ord[tid]` gathered through `order`).  `Amgcl.C09.constructor_literal_eq_spec` proves
+  -- `constructorLit ln nt = tasks level nt`; the run-time comparisons below are cross-checks only
+  let level := ln.1
+  let tk := constructorLit ln nt
   let nl := nlev level
+  if ln.2 != nl then "model-inconsistent: nlev" else
   let cs := countingSort level
   if cs.1 != order level || cs.2 != (List.range (nl + 1)).map (start level) then "model-inconsistent: counting sort" else
+  if tk != tasks level nt then "model-inconsistent: literal schedule differs from its specification" else
   let adv := [reverseThreadSchedule tk nl, roundRobinSchedule tk nl, threadOrderSchedule tk nl]
   if !(adv.all (isExec gsExpectedSkeleton tk nl)) then "model-inconsistent: adversarial schedule not in Exec" else
   let cf := conflictFree fwd pat level
@@ -68,14 +75,18 @@ def handle (op : String) (args : List String) : Option String :=
         if !(flag f && ntOk nt && square A && rhs.size == A.nrows && x.size == A.nrows) then badInput else
         let fwd := f == 1
         let pat := pattern A
+        let ln := if op == "sched_gs_asis" then gsLevelsAsIsN fwd pat else gsLevelsN fwd pat
         let level := if op == "sched_gs_asis" then gsLevelsAsIs fwd pat else gsLevels fwd pat
-        schedOut fwd pat level nt (gsRow A rhs) (gsSerialSweep fwd A rhs x) x
+        if ln.1 != level then "model-inconsistent: levels" else
+        schedOut fwd pat ln nt (gsRow A rhs) (gsSerialSweep fwd A rhs x) x
   | "sched_ilu" => withArgs (do let lo ← pNat; let nt ← pNat; let A ← pCRS; let D ← pVec; let x ← pVec; pure (lo, nt, A, D, x)) args
       fun (lo, nt, A, D, x) =>
         if !(flag lo && ntOk nt && square A && D.size == A.nrows && x.size == A.nrows && strictTri (lo == 1) A) then badInput else
         let lower := lo == 1
         let pat := pattern A
-        schedOut lower pat (iluLevels lower pat) nt (iluRow lower A D) (iluSerialHalf lower A D x) x
+        let ln := iluLevelsN lower pat
+        if ln.1 != iluLevels lower pat then "model-inconsistent: levels" else
+        schedOut lower pat ln nt (iluRow lower A D) (iluSerialHalf lower A D x) x
   | "gs_apply" => withArgs (do let nt ← pNat; let w ← pNat; let A ← pCRS; let rhs ← pVec; let x ← pVec; pure (nt, w, A, rhs, x)) args
       fun (nt, w, A, rhs, x) =>
         if !(ntOk nt && w ≤ 2 && square A && rhs.size == A.nrows && x.size == A.nrows) then badInput else
